@@ -1,6 +1,13 @@
 use crate::protobuf::errors::{ErrorKind, ProtobufError};
 use crate::protobuf::value::{FieldTypes, LimitReader, ReadValue};
 
+/// Maximum nesting depth of embedded messages.
+///
+/// Decoders for nested messages recurse, so the depth needs to be bounded to
+/// avoid exhausting the stack when decoding untrusted input. This matches the
+/// default limit used by other Protocol Buffers implementations.
+const MAX_NESTING_DEPTH: u32 = 100;
+
 /// Wire-type and associated value of a field.
 ///
 /// See <https://protobuf.dev/programming-guides/encoding/#structure>.
@@ -93,6 +100,9 @@ pub struct Field<'r, R: ReadValue> {
 
     /// Unconsumed field ID slot in the parent [`Fields`].
     unconsumed_field: &'r mut Option<u64>,
+
+    /// Nesting depth of the message this field belongs to.
+    depth: u32,
 }
 
 impl<'r, R: ReadValue> Field<'r, R> {
@@ -144,11 +154,15 @@ impl<'r, R: ReadValue> Field<'r, R> {
     ) -> Result<Fields<'_, impl ReadValue<Types = R::Types>>, ProtobufError> {
         match self.value {
             FieldValue::Len(len) => {
+                if self.depth >= MAX_NESTING_DEPTH {
+                    return Err(self.error(ErrorKind::NestingTooDeep));
+                }
                 self.consume_field()?;
                 Ok(Fields {
                     reader: self.reader.sub_limit(len),
                     context,
                     unconsumed_field: None,
+                    depth: self.depth + 1,
                 })
             }
             _ => Err(self.error(ErrorKind::FieldTypeMismatch)),
@@ -396,6 +410,9 @@ pub struct Fields<'r, R: ReadValue> {
     /// before being dropped. This is used to report an error when attempting
     /// to read the next field.
     unconsumed_field: Option<u64>,
+
+    /// Nesting depth of this message. The top-level message has depth zero.
+    depth: u32,
 }
 
 impl<'r, R: ReadValue> Fields<'r, R> {
@@ -409,6 +426,7 @@ impl<'r, R: ReadValue> Fields<'r, R> {
             reader: LimitReader::new(reader, len),
             context,
             unconsumed_field: None,
+            depth: 0,
         }
     }
 
@@ -466,6 +484,7 @@ impl<'r, R: ReadValue> Fields<'r, R> {
             value,
             context: self.context,
             unconsumed_field: &mut self.unconsumed_field,
+            depth: self.depth,
         }))
     }
 }
